@@ -712,7 +712,18 @@ def a_blocks_group_does_not_depend_on_its_neighbours_in_the_list(nt: int, B1: fl
 # ------------------------------------------------------------------------------------------ widened hypotheses
 # The lemmas above assume positive volumes / non-negative masses and burnups for convenience; the property quantifies
 # over all blocks.  The lemmas below state the same clauses on the parts of the input space those hypotheses excluded
-# (kept as separate lemmas so that the obligations above keep their names).
+# (kept as separate lemmas so that the obligations above keep their names).  Classification of what stays assumed:
+#   v > 0 (block volumes): v == 0 is in getWeight's domain (substitute 1.0, lemma weight_is_parameter_times_volume_and_never_zero);
+#       the burnup / component-temperature kernels divide by the zero volume / height: contracts/C20_xsgroups_finding.py.
+#       v < 0 is no block.
+#   valid_weighting (all-zero or all-positive weighting parameter): the property text conditions on it and
+#       _checkValidWeightingFactors enforces it (mixed_zero_and_nonzero_weighting_factors_are_refused).
+#   masses / volume fractions / areas of ONE sign per averaged quantity: genuine precondition of the 'between minimum
+#       and maximum' clause - with weights of both signs (a bond overlapped in one member only) the weight-normalised
+#       mean is still what the code returns, but it is not a convex combination; negative weights throughout are
+#       covered below and in contracts/C20_collections_finding.py.
+#   densities >= 0, heights > 0 of blocks with volume, burnup bounds in (0, 100], ascending bounds: data invariants
+#       (the bounds are validated by _setBuGroupBounds / _setTempGroupBounds, lemmas above).
 @lemma(gen=dict(GEN3, m1=[0.0, -1.0, -35.5], m2=[0.0, -2.0, -12.25], m3=[0.0, -0.5, -100.0]))
 def component_average_temperature_with_negative_component_masses(n: int, k: int, fluxWeighted: bool, v1: float, v2: float, v3: float, f1: float,
                                                                   f2: float, f3: float, h1: float, h2: float, h3: float, m1: float, m2: float,
